@@ -111,7 +111,9 @@ class G(object):
     def scenario(self):
         # environment: local time zone of the process (all SAML time is UTC; nothing may depend on it)
         tz = mkrng(self.seed, "tz").pick([None, None, None, None, "CET-1", "EST5", "IST-5:30", "NZST-12"])
-        return {"engine": "fedsim", "prop": self.prop, "seed": self.seed, "tier": self.tier, "tz": tz,
+        # environment: the release the installed xmlsec1 reports with --version (no behaviour of the tool depends on it)
+        tv = mkrng(self.seed, "toolversion").pick([None, None, None, "1.2.37", "1.3.4", "1.3.0", "1.4.1"])
+        return {"engine": "fedsim", "prop": self.prop, "seed": self.seed, "tier": self.tier, "tz": tz, "tool_version": tv,
                 "knobs": self.knobs, "nodes": self.nodes, "skew": self.skew, "events": self.events}
 
     # ---------------------------------------------------------------- layout
@@ -350,6 +352,9 @@ def gen_c04(seed, tier):
                 # the bearer confirmation names the address it was issued to, and the application tells the
                 # library which address the response came from (the same one)
                 d["scd_address"] = "10.0.0.5"
+            if not clean and r.chance(0.12):
+                # the assertion carries two AuthnStatements; the second one's session ended long ago / is fine
+                d["second_authn"] = {"session_nooa": r.pick([-86400, -3600, -1, life])}
             if p.get("encrypt") and r.chance(0.5):
                 # a second, fresh assertion in the clear travels with the encrypted one that carries the bounds under
                 # test: every assertion's windows count, not only the first one's
@@ -897,6 +902,15 @@ def gen_c03(seed, tier):
             if which in ("both", "assertion"):
                 d["assertion_issuer"] = claimed
             p["dialect"] = d
+        elif not clean and r.chance(0.12) and sp.get("enc_keys"):
+            # two signed assertions come out of one EncryptedAssertion element: the encrypted, genuine one and a second
+            # one (in the clear, behind the EncryptedData, or next to the element) signed with a key that is not this
+            # IdP's - each signature is judged under the keys of the Issuer its assertion names
+            p.update({"encrypt": True, "sign_assertion": True, "self_contained": True,
+                      "dialect": {"plain_next_to_encrypted": {"signed": "other-key", "where": r.pick(["wrapper", "wrapper", None]),
+                                                              "key": r.pick([9, 10, 11, r.pick([x for x in idps if x is not idp])["key"]])}}})
+            if not p.get("sigalg"):
+                p["sigalg"], p["digalg"] = r.pick(SIGALGS), r.pick(DIGALGS)
         elif r.chance(0.15) and len(idps) > 1 and not p.get("encrypt"):
             # an attribute assertion of another member, signed, carried encrypted in the Advice of this IdP's
             # assertion: trusted only under the keys of the Issuer it names itself
